@@ -136,9 +136,19 @@ def _bvp_case(arg):
                 pot = solve_poisson_bvp(g, rho, tf, boundary=boundary, include_origin=include_origin,
                                         remove_large_pts={"default": 1e6, "none": None, "50": 50.0}[remove])
                 got = np.asarray(pot(q), dtype=float)
+                # the potential is a function of the CONTENTS of the array it is given (lesson of seeded change C15-J): a work
+                # array evaluated, refilled in place with the points in another order, evaluated again
+                perm = np.arange(len(q))[::-1]
+                buf = q.copy()
+                pot(buf)
+                buf[...] = q[perm]
+                got_refill = np.asarray(pot(buf), dtype=float)
     except Exception as exc:
         res.violation(f"bvp:raised:{type(exc).__name__}", f"{case}: {type(exc).__name__}: {exc}", case)
         return res.as_dict()
+    if got_refill.shape != got.shape or _gt(np.max(np.abs(got_refill - got[perm])), 1e-10 * (1 + np.max(np.abs(got[np.isfinite(got)]), initial=0.0))):
+        res.violation("bvp:callable-stale-after-points-refilled-in-place", f"{case}: the returned potential evaluated on a work array that was refilled "
+                      f"in place differs from its values at those points", case)
     if not np.array_equal(rho, snap):
         res.violation("bvp:argument-modified", "density values were modified", case)
     ref = v_gauss(q, c, a)
